@@ -776,6 +776,9 @@ func (rig *c20Rig) liveViews() (map[string]map[string]c20View, []string) {
 
 func (m *c20Model) checkLiveSet(snap c20Snapshot, views map[string]map[string]c20View, dup []string) (mism []c20Mismatch) {
 	for _, name := range dup {
+		if m.unjudged[name] {
+			continue
+		}
 		mism = append(mism, c20Mismatch{
 			Name:   name,
 			Sig:    "liveset:trafficcontroller:name-live-as-pipeline-and-as-gate",
@@ -795,8 +798,8 @@ func (m *c20Model) checkLiveSet(snap c20Snapshot, views map[string]map[string]c2
 			seen[name] = true
 			got, present := view[name]
 			bad := ""
-			if m.unjudged[name] && !(st.Kind == 0 && present) && !(st.Kind != 0 && !present) {
-				continue // presence is still judged, the generation's details are not
+			if m.unjudged[name] {
+				continue
 			}
 			switch {
 			case st.Kind == 0 && present:
